@@ -16,7 +16,7 @@ EXPLANATION = (
     "(module, node): shared with C09.R2. (R4) the evaluator honours the resolver's binding (shared with C08.R1-R3): a use must not "
     "evaluate to a same-named binding of a caller. Correctness of values and attachment to the right declaration need a reference "
     "semantics and are not decided.")
-EXPLANATION += " Further clauses: (R5) NAME-AGREE - a field filled from a like-named field or annotation key is filled from that one; (R6) ENUM-MAP - the sibling mapping tables agree; (R7) FALLBACK-ORDER - precedence of the two sources of one field (frozen table of 4 rows); (R8) REF-TRANSPARENT - every cast treats a named reference as its value; (R9) JOIN-AGREE (shared C10.R5); (R10) every `res` statement is enumerated; (R11) COMPONENT-KEPT (shared C03.R1). (R12) COMBINE - the combinators of spec.rs carry what the language says (concat: the right operand's query parameters only; a schema used as content keeps its description; a URI used as relation is its uri)."
+EXPLANATION += " Further clauses: (R5) NAME-AGREE - a field filled from a like-named field or annotation key is filled from that one; (R6) ENUM-MAP - the sibling mapping tables agree; (R7) FALLBACK-ORDER - precedence of the two sources of one field (frozen table of 4 rows); (R8) REF-TRANSPARENT - every cast treats a named reference as its value; (R9) JOIN-AGREE (shared C10.R5); (R10) every `res` statement is enumerated; (R11) COMPONENT-KEPT (shared C03.R1). (R12) COMBINE - the combinators of spec.rs carry what the language says (concat: the right operand's query parameters only; a schema used as content keeps its description; a URI used as relation is its uri). (R13) MERGED-ENTRY - an output entry shared by several declarations is added to, never overwritten field-wise; (R14) GRAMMAR-AGREE - every kind of child a production attaches is read by some typed accessor of the parent; (R15) SHARED-VALUE - the cached value of a reference does not depend on use-site annotations."
 TECHNIQUE = "static analysis: field read/write census on MIR + insertion-site census classified by resolved callee with a frozen triage table"
 
 SPEC_OWNER = re.compile(r'^(oal_compiler::)?spec::(\w+)$')
@@ -303,8 +303,201 @@ def r12_combine(c, facts):
         else:
             c.ok(R, inst)
 
+    # concat: the path is the left path (minus one trailing empty segment) followed by the *whole* right path
+    ap = c.anchor(R, 'oal_compiler::spec::Uri::append')
+    NARROW = {'remove', 'drain', 'retain', 'filter', 'filter_map', 'skip', 'skip_while', 'take', 'take_while', 'pop', 'truncate', 'split_off', 'split_first', 'split_last',
+              'first', 'first_mut', 'last', 'dedup', 'dedup_by', 'dedup_by_key', 'swap_remove', 'step_by', 'clear', 'get', 'get_mut', 'nth', 'index', 'index_mut'}
+    narrowed = set()
+    moved = False
+    for g in [ap] + list(facts.closures_of(ap)):
+        if not g.mir:
+            continue
+        gi = MF.defs_index(g)
+        for b, t in g.calls():
+            info = callee_of(t)
+            if not info:
+                continue
+            nm = P.strip(info['def']).split('::')[-1]
+            from_other = False
+            for a_ in t['args']:
+                if 'l' not in a_:
+                    continue
+                srcs_ = set(MF.field_sources(g, a_['l'], gi))
+                if 1 <= a_['l'] <= g.mir['argc']:
+                    srcs_.add((a_['l'], tuple(x for x in MF.field_path(a_) if not x.startswith('<'))))
+                if g is ap and any(r == 2 and p_[:1] == ('path',) for r, p_ in srcs_):
+                    from_other = True
+            if from_other:
+                if nm in NARROW:
+                    narrowed.add(nm)
+                if nm in ('append', 'extend', 'extend_from_slice'):
+                    moved = True
+    if narrowed:
+        c.bad(R, 'append:path:right-operand-narrowed:%s' % ','.join(sorted(narrowed)), 'Uri::append selects or removes segments of the right operand (%s) before appending them: `concat` no longer yields left path + right path, and the "a path has at least one segment" invariant its own unwrap relies on can break' % ', '.join(sorted(narrowed)))
+    elif not moved:
+        c.bad(R, 'append:path:not-appended', 'Uri::append no longer appends the right operand\'s path')
+    else:
+        c.ok(R, {'fn': 'Uri::append', 'field': 'path', 'sources': 'the whole of other.path is appended'})
+
+
+def r13_merged_assign(c, facts, rule='C02.R13'):
+    """An entry that several declarations share (obtained with entry().or_insert / get_or_insert_with: "the response of
+    this status, created if need be") must be merged into: a whole-field assignment through that reference keeps the
+    last declaration's value only."""
+    R = c.rule(rule, 'MERGED-ENTRY: an output entry shared by several declarations is added to, never overwritten field-wise')
+    GETTERS = ('or_insert', 'or_insert_with', 'or_insert_with_key', 'or_default', 'get_or_insert', 'get_or_insert_with', 'get_or_insert_default')
+    nsites = 0
+    for fn in sorted(facts.fns.values(), key=lambda f: f.qname):
+        if not fn.mir:
+            continue
+        q = fn.qname
+        if not (q.startswith('oal_compiler::eval') or q.startswith('oal_compiler::spec') or q.startswith('oal_compiler::stdlib')
+                or q.startswith('oal_compiler::<s') or fn.crate == 'oal_openapi'):
+            continue
+        base = re.sub(r'::\{closure#\d+\}', '', q)
+        for b, t in fn.calls():
+            info = callee_of(t)
+            if not info or info['def'].split('::')[-1] not in GETTERS:
+                continue
+            nsites += 1
+            derived, _ = MF.forward_uses(fn, t['dest']['l'])
+            over = set()
+            # "several declarations": the lookup is repeated - it lies on a cycle of the CFG, or in a closure
+            again = fn.reachable_from(b) if '{closure' in q else {x for sx in fn.succ(b) for x in fn.reachable_from(sx)}
+            repeated = '{closure' in q or b in again
+            for bi, blk in fn.blocks():
+                if not repeated or bi not in again:
+                    continue
+                for st in blk['stmts']:
+                    if st['s'] != 'assign' or st['place']['l'] not in derived:
+                        continue
+                    pr = st['place']['proj']
+                    if not pr or pr[0]['p'] != 'deref':
+                        continue
+                    flds = [x for x in pr if x['p'] == 'field']
+                    if flds:
+                        over.add('%s.%s' % ((flds[-1].get('owner') or '?').split('::')[-1], flds[-1].get('name') or flds[-1]['i']))
+            inst = {'fn': q, 'api': info['def'].split('::')[-1]}
+            if over:
+                for o in sorted(over):
+                    c.bad(R, '%s:%s-overwritten' % (base.split('::')[-1], o), '%s assigns %s of an entry it shares between declarations (obtained with %s): the value of every declaration but the last is dropped' % (base, o, inst['api']), **inst)
+            else:
+                c.ok(R, inst)
+    c.floor(R, 'shared-entry lookups examined', nsites, 2)
+
+
+def taint_forward(fn, seeds):
+    """locals that may hold (part of) the seeds: through assignments, references, call results, and `&mut` arguments of
+    calls that also receive a tainted argument (`a.extend(b)`)."""
+    T = set(seeds)
+    refs = {}
+    for _, blk in fn.blocks():
+        for st in blk['stmts']:
+            if st['s'] == 'assign' and st['rv']['r'] in ('ref', 'rawptr') and not st['place']['proj']:
+                refs.setdefault(st['place']['l'], set()).add(st['rv']['place']['l'])
+    changed = True
+    while changed:
+        changed = False
+        for _, blk in fn.blocks():
+            for st in blk['stmts']:
+                if st['s'] != 'assign':
+                    continue
+                rv = st['rv']
+                src = [rv['place']['l']] if rv['r'] in ('ref', 'rawptr') else [o['l'] for o in MF.operands_of_rvalue(rv) if 'l' in o]
+                if any(x in T for x in src) and st['place']['l'] not in T:
+                    T.add(st['place']['l']); changed = True
+            t = blk['term']
+            if t['t'] == 'call' and any(a.get('l') in T for a in t['args']):
+                out = {t['dest']['l']}
+                for a in t['args']:
+                    if 'l' in a and a.get('ty', '').startswith('&mut'):
+                        out |= refs.get(a['l'], set())
+                if not out <= T:
+                    T |= out; changed = True
+    return T
+
+
+def r15_shared_value(c, facts, rule='C02.R15'):
+    """The value of a reference / recursive declaration is evaluated once and shared by every use (Context.refs): it
+    must be a function of the declaration alone."""
+    R = c.rule(rule, 'SHARED-VALUE: the value cached for a reference does not depend on the annotations of the use that evaluates it first')
+    fn = c.anchor(R, 'oal_compiler::eval::eval_declaration')
+    argc = fn.mir['argc']
+    annp = [i for i in range(1, argc + 1) if 'AnnRef' in fn.mir['locals'][i]['ty'] or 'Annotation' in fn.mir['locals'][i]['ty']]
+    if len(annp) != 1:
+        c.bad(R, 'eval_declaration:annotation-parameter-shape', 'eval_declaration no longer takes exactly one annotation parameter')
+        return
+    T = taint_forward(fn, annp)
+    idx = MF.defs_index(fn)
+    n = 0
+    bad = False
+    for b, t in fn.calls():
+        info = callee_of(t)
+        if not info or info['def'].split('::')[-1] != 'insert' or len(t['args']) < 3 or 'l' not in t['args'][2]:
+            continue
+        sl = MF.slice_back(fn, t['args'][2]['l'], idx)
+        if not any(rv.get('variant') == 'Some' for rv, _ in sl['aggrs']):
+            continue
+        for name, ct, cb in sl['calls']:
+            if P.name_is(name, 'eval_any'):
+                n += 1
+                if any(a.get('l') in T for a in ct['args'][2:]):
+                    bad = True
+    c.floor(R, 'evaluations whose result is cached in Context.refs', n, 1)
+    if bad:
+        c.bad(R, 'eval_declaration:shared-value-evaluated-with-use-site-annotations', 'eval_declaration evaluates the value it caches for every use of a reference with the annotations of the use that comes first: `<@a `title: "T"`>` puts the title on component `a`, which every other use refers to')
+    else:
+        c.ok(R, {'eval_declaration': 'the cached value is evaluated with the declaration\'s own annotations'})
+
+
+def r16_range_key(c, facts, rule='C02.R16'):
+    """Responses are keyed by (status, media) from the moment `::` combines them (Ranges is a map): whatever decides the
+    status of a content - the `status=` tag, or 204 for a content without a body - must be decided when the content is
+    evaluated, and the emitter must use the key as it is.  A default applied only at emission makes `<item> :: <>` two
+    entries with the same key, of which the map keeps one."""
+    R = c.rule(rule, 'RANGE-KEY: the status of a response is fixed when its content is evaluated; the emitter uses the key of the range unchanged')
+    ev = c.anchor(R, 'oal_compiler::eval::eval_content')
+    idx = MF.defs_index(ev)
+    found = None
+    for b, blk in ev.blocks():
+        for st in blk['stmts']:
+            rv = st['rv'] if st['s'] == 'assign' else None
+            if rv and rv['r'] == 'aggr' and (rv.get('adt') or '').endswith('spec::Content') and 'status' in (rv.get('fields') or []):
+                op = rv['ops'][rv['fields'].index('status')]
+                sl = MF.slice_back(ev, op['l'], idx) if 'l' in op else {'consts': [], 'calls': []}
+                found = any(str(k.get('val')) == '204' for k in sl['consts']) and any('HttpStatus' in n or 'try_from' in n or 'try_into' in n for n, _, _ in sl['calls'])
+    if found is None:
+        c.bad(R, 'eval_content:content-shape', 'eval_content no longer builds a spec::Content with a status')
+    elif not found:
+        c.bad(R, 'eval_content:no-content-default-missing', 'eval_content no longer gives a content without a body the status 204: `<item> :: <>` become two entries with the key (None, None) and the map of ranges keeps one of them')
+    else:
+        c.ok(R, {'eval_content': 'a content without a body gets status 204 before it can become a key'})
+    xr = c.anchor(R, 'oal_openapi::Builder::xfer_responses')
+    xi = MF.defs_index(xr)
+    SECOND = {'or', 'or_else', 'xor', 'unwrap_or', 'unwrap_or_else', 'unwrap_or_default', 'map_or', 'map_or_else', 'and_then', 'filter', 'get_or_insert', 'get_or_insert_with', 'insert'}
+    n = 0
+    for b, t in P.call_blocks(xr, 'Builder::http_status_code'):
+        a = t['args'][1] if len(t['args']) > 1 else None
+        if not a or 'l' not in a:
+            continue
+        n += 1
+        sl = MF.slice_back(xr, a['l'], xi)
+        second = sorted({P.strip(nm).split('::')[-1] for nm, ct, _ in sl['calls'] if P.strip(nm).split('::')[-1] in SECOND or ((callee_of(ct) or {}).get('crate') or '').startswith('oal_')})
+        if second:
+            c.bad(R, 'xfer_responses:status-not-from-key:%s' % ','.join(second), 'xfer_responses derives the status of a response through %s, not from the key of the range alone: two ranges with different keys can land on one response, or the key no longer says which' % second)
+        else:
+            c.ok(R, {'xfer_responses': 'status taken from the key of the range'})
+    c.floor(R, 'status conversions in xfer_responses', n, 1)
 
 def run(c, facts):
+    import grammar
+    c.run(lambda c: grammar.agree(c, facts, 'C02.R14', floor=12))
+    c.run(r13_merged_assign, facts)
+    import c05 as _c05
+    R17 = c.rule('C02.R17', 'ANNOTATION-PLACE: annotations written at a use, on a parameter occurrence or on parentheses reach the value they are written on, with the precedence the language defines (shared with C05.R1)')
+    c.shared(R17, _c05.r1_transparent, 'C05.R1', facts)
+    c.run(r16_range_key, facts)
+    c.run(r15_shared_value, facts)
     c.run(r12_combine, facts)
     import c08
     import c09
